@@ -26,8 +26,12 @@ class Timeout(BaseException):   # not an Exception: handlers of the implementati
     pass
 
 
+ARMED = [False]
+
+
 def _alarm(signum, frame):
-    raise Timeout()
+    if ARMED[0]:
+        raise Timeout()
 
 
 def sample_sources():
@@ -43,7 +47,8 @@ def sample_sources():
     return out
 
 
-NOISE = ["#if", "#define X \\", "#define Y(a,b) a\\b", "#endif", "#else", "#include \"x", "procedure(foo) :: bar", "end", "contains",
+NOISE = ["#define n (n+1)", "#define aa bb", "#define bb aa", "k = n + aa", "#define chk(s) call r(chk(s))", "chk(1)", "#define i i", "#define do_x do_x + 1",
+         "#if", "#define X \\", "#define Y(a,b) a\\b", "#endif", "#else", "#include \"x", "procedure(foo) :: bar", "end", "contains",
          "implicit &", " none", "type, extends(", "select type (x)", "type is (", "class default", "associate (a => b, c", "10 continue",
          "do 10 i=1,", "interface", "module procedure ", "generic :: g => ", "end select", "where (a > 0)", "block", "critical", "enum, bind(c)",
          "submodule (", "private", "public :: ", "use ", "import, none", "   &", "'", '"', "!>", "!<", "!!", ";", ";;end;", "\t", "é", "\x00"]
@@ -98,16 +103,23 @@ def gen_inputs(rng, sources, n):
 def parse_guarded(text, ext, limit):
     """returns (tokens, records, errs, last, exception text or None, seconds)"""
     old = signal.signal(signal.SIGALRM, _alarm)
-    signal.setitimer(signal.ITIMER_REAL, limit)
     t0 = time.time()
+    ARMED[0] = True
+    # repeating: a bare `except:` of the implementation may swallow one delivery
+    signal.setitimer(signal.ITIMER_REAL, limit, 0.25)
     try:
-        toks, recs, errs, last, err = scopetrace.parse_recorded(text, "/nonexistent/t" + ext, pp=ext.isupper() or ext in (".F90", ".F"))
+        try:
+            toks, recs, errs, last, err = scopetrace.parse_recorded(text, "/nonexistent/t" + ext, pp=ext.isupper() or ext in (".F90", ".F"))
+        finally:
+            ARMED[0] = False
         if err is not None:
             import traceback
             err = "".join(traceback.format_exception_only(type(err), err)).strip()
     except Timeout:
+        ARMED[0] = False
         toks, recs, errs, last, err = [], None, None, 0, "timeout after %ss" % limit
     finally:
+        ARMED[0] = False
         signal.setitimer(signal.ITIMER_REAL, 0)
         signal.signal(signal.SIGALRM, old)
     return toks, recs, errs, last, err, time.time() - t0
@@ -175,10 +187,30 @@ def check_server_path(ctx, inputs):
             with open(path, "w", encoding="utf-8", newline="") as f:
                 f.write("program stale_version\nend program stale_version\n")
             conn.take()
-            impl.did_open(srv, path)
-            impl.did_change(srv, path, [{"text": text}])
-            out = conn.take()
-            resp, out2 = impl.request(srv, conn, "textDocument/documentSymbol", {"textDocument": {"uri": impl.uri(path)}})
+            old = signal.signal(signal.SIGALRM, _alarm)
+            ARMED[0] = True
+            signal.setitimer(signal.ITIMER_REAL, 10, 0.25)
+            try:
+                try:
+                    impl.did_open(srv, path)
+                    impl.did_change(srv, path, [{"text": text}])
+                    out = conn.take()
+                    resp, out2 = impl.request(srv, conn, "textDocument/documentSymbol", {"textDocument": {"uri": impl.uri(path)}})
+                finally:
+                    ARMED[0] = False
+            except Timeout:
+                ARMED[0] = False
+                out, out2, resp = [], [], None
+                ctx.report("C03:update-hangs", "the server did not finish updating a document within 10 s",
+                           {"kind": "counterexample", "input": {"text": text, "ext": ext, "derived_from": name, "mutation": kind}})
+                signal.setitimer(signal.ITIMER_REAL, 0)
+                signal.signal(signal.SIGALRM, old)
+                srv, conn = impl.make_server(root, extra=["--nthreads", "1"])
+                continue
+            finally:
+                ARMED[0] = False
+                signal.setitimer(signal.ITIMER_REAL, 0)
+                signal.signal(signal.SIGALRM, old)
             msgs = [o[2].get("message", "") for o in out + out2 if o[0] == "n" and o[1] == "window/showMessage"]
             bad_msgs = [m for m in msgs if "Error during parsing" in m or "Change request failed" in m or "Initialization failed" in m or "Unexpected error" in m]
             stale = resp is not None and resp[0] == "r" and any(s.get("name") == "stale_version" for s in (resp[2] or [])) and "stale_version" not in text
@@ -203,6 +235,11 @@ CORPUS = [
     ("corpus", "fixed", ".f", "      do 10 i=1,2\n      do 10 j=1,2\n10    continue\n10    continue\n"),
     ("corpus", "fixed", ".f90", "generic :: g => a, b\nmodule procedure x\ninterface\nprocedure y\nend\n"),
     ("corpus", "fixed", ".F90", "#if\n#elif\n#else\n#endif\n#endif\n#ifdef\n#include\n#define\n#undef\n"),
+    # macros whose expansion reaches their own name again (cpp expands each name once)
+    ("corpus", "fixed", ".F90", "#define n (n+1)\nprogram p\ninteger :: k\nk = n\nend program p\n"),
+    ("corpus", "fixed", ".F90", "#define old_norm new_norm\n#define new_norm old_norm\nsubroutine s()\nx = old_norm(1)\nend subroutine s\n"),
+    ("corpus", "fixed", ".F90", "#define check(stat) call report(check(stat))\nsubroutine s()\ncheck(1)\nend subroutine s\n"),
+    ("corpus", "fixed", ".F", "#define A A\n#define B(x) B(x)\n      y = A + B(2)\n"),
 ]
 
 
